@@ -16,6 +16,7 @@ UNITS = {
     'TRANSPORT': dict(template='transport.rs', rlimit=30),
     'LINKDETACH': dict(template='linkdetach.rs', rlimit=30),
     'BUILDER': dict(template='builder.rs', rlimit=30),
+    'SASLNEG': dict(template='saslneg.rs', rlimit=30),
 }
 
 COMMON_TRUSTED = [
@@ -91,11 +92,11 @@ PROPS = {
         level_text='BOUNDED stand-in only: Kani/CBMC explores every byte string up to the stated length for each listed type on the real serde_amqp crate with overflow checks and unwinding assertions on. Nothing here is counted as proved; recursion depth, allocation size and progress are not decided.',
         assumptions=['bounded: input length <= 3 bytes per harness (all strings)', 'stack depth, allocation proportional to input, no-loop-without-consuming are NOT decided (a CBMC run cannot bound the real process)', 'structure-aware corruptions of longer encodings are covered only by the thorough-tier compound-header harnesses']),
     'C19': dict(
-        units=['FRAMEDEC'], kani=K_SASL, level='proof', title='SASL (PLAIN validator bounded; SASL frame decoder proved total)',
-        level_text='The SASL frame decoder (frames/sasl.rs FrameCodec::decode) is under a Verus contract: any body yields Ok or Err, a non-SASL frame type is refused. The PLAIN credential validator is checked by Kani on the real fe2o3-amqp crate for every initial response up to 7 bytes against an independent oracle -- a BOUNDED stand-in listed under bounded_obligations, not counted as proved.',
+        units=['FRAMEDEC', 'SASLNEG'], kani=K_SASL, level='proof', title='SASL (PLAIN validator bounded; SASL frame decoder proved total)',
+        level_text='Under Verus contracts: the listener negotiation loop (acceptor/connection.rs negotiate_sasl_with_framed: an AMQP connection is negotiated only after an outcome with code OK was produced and sent; anything else ends in Err) and the SASL frame decoder (any body yields Ok or Err, a non-SASL frame type is refused). The PLAIN credential validator is checked by Kani on the real fe2o3-amqp crate for every initial response up to 7 bytes against an independent oracle -- a BOUNDED stand-in listed under bounded_obligations, not counted as proved.',
         assumptions=[
             'bounded: PLAIN initial responses of <= 7 bytes with a fixed 2-byte user and password; longer credentials/responses are not decided',
-            'NOT DECIDED: the listener negotiation loop (acceptor/connection.rs: only an Ok outcome re-arms the AMQP header codec), the client side (sasl_profile), out-of-order frame sequences, a skipped SASL layer / premature AMQP header',
+            'the listener loop is under contract with the mechanism, the transport and the follow-up AMQP negotiation as stand-ins; NOT DECIDED: the client side (sasl_profile: a client never treats a non-OK outcome as success), a skipped SASL layer / premature AMQP header (protocol-header codec), which mechanism gets selected',
             'NOT DECIDED: SCRAM (string splitting, base64, HMAC/PBKDF2: outside Verus (no str reasoning) and beyond CBMC within resource limits)',
             'PLAIN does not check that init.mechanism == PLAIN (observed, not part of the property)']),
     'C06': dict(
